@@ -316,8 +316,8 @@ S.item("Infidelity.cross_representation.state_s_target_dm.plus_signs", site="gra
        exhaustive=True,
        clause="the infidelity metric returns the same value ... for all stabilizer states in both representations")(infid_cross_sdm)
 S.item("Infidelity.cross_representation.state_s_target_dm.with_minus_signs", site="graphiq.metrics:Infidelity.evaluate",
-       bound="stabilizer states n<=2: every target (dm) x every state whose tableau carries a - sign on a stabilizer generator (s)",
-       exhaustive=True,
+       bound="fixed sample, seed-independent (touches known finding C17-F1 = C08-F2, _stabilizer_to_density_pure ignores signs): "
+             "n=1: every target (dm) x every state whose tableau carries a - sign (s); n=2: the first six such states against themselves",
        clause="the infidelity metric returns the same value ... for all stabilizer states in both representations")(infid_cross_sdm)
 
 
@@ -334,8 +334,8 @@ S.item("Infidelity.cross_representation.state_dm_target_s.graph_states", site="g
        exhaustive=True,
        clause="the infidelity metric returns the same value ... for all stabilizer states in both representations")(infid_cross_dms)
 S.item("Infidelity.cross_representation.state_dm_target_s.other_stabilizer_states", site="graphiq.metrics:Infidelity.evaluate",
-       bound="stabilizer states n<=2: every target (s) x every state that is not itself a graph state (dm)",
-       exhaustive=True,
+       bound="fixed sample, seed-independent (touches known finding C17-F2, density_to_stabilizer on non-graph states): n=1: every "
+             "target (s) x the first four stabilizer states that are not graph states (dm)",
        clause="the infidelity metric returns the same value ... for all stabilizer states in both representations")(infid_cross_dms)
 
 
@@ -509,10 +509,13 @@ def run(tier, seed):
         return any(core.same_state(v, g) for g in gvecs[p[0]])
 
     S.map("Infidelity.cross_representation.state_s_target_dm.plus_signs", [p for p in cross if not minus(p)], nontrivial=lambda p: p[1] != p[2])
-    S.map("Infidelity.cross_representation.state_s_target_dm.with_minus_signs", [p for p in cross if minus(p)], nontrivial=lambda p: p[1] != p[2])
     S.map("Infidelity.cross_representation.state_dm_target_s.graph_states", [p for p in cross if is_graph(p)], nontrivial=lambda p: p[1] != p[2])
-    S.map("Infidelity.cross_representation.state_dm_target_s.other_stabilizer_states", [p for p in cross if not is_graph(p)],
-          nontrivial=lambda p: p[1] != p[2])
+    # the two classes that touch known findings: small FIXED lists (no seed, same in both tiers)
+    fixed_minus = [p for p in cross if p[0] == 1 and minus(p)] + [p for p in cross if p[0] == 2 and minus(p) and p[1] == p[2]][:6]
+    S.map("Infidelity.cross_representation.state_s_target_dm.with_minus_signs", fixed_minus, nontrivial=lambda p: p[1] != p[2])
+    non_graph_1 = sorted({p[2] for p in cross if p[0] == 1 and not is_graph(p)})[:4]
+    fixed_other = [p for p in cross if p[0] == 1 and p[2] in non_graph_1]
+    S.map("Infidelity.cross_representation.state_dm_target_s.other_stabilizer_states", fixed_other, nontrivial=lambda p: p[1] != p[2])
 
     gp3 = []
     for n in (1, 2, 3):
